@@ -82,6 +82,7 @@ def run(S):
     height_timer(S, D)
     final_hop(S, D)
     go_onchain(S, D)
+    claim_deadline(S, D)
     from .C02 import forward_admission_manager
     forward_admission_manager(S, D, 'C08.e')
 
@@ -250,3 +251,91 @@ def go_onchain(S, D):
                     'in time, and not early: with the preimage in hand the node is on chain while at least 36 blocks remain before the payer can time the HTLC out; an expired outbound HTLC is taken on chain from the third block after expiry on, never before (the peer gets its grace period to fail it off chain)', [b])
             S.witness('C08.g.witness', E, pre + [z3.Not(outbound), known], closes)
             S.validate('C08.g.validate', E, b, n=10, extra_vectors=[(1, 0, 1000, 1000 + k) for k in range(0, 6)] + [(0, 1, 1000, 1000 - 40 + k) for k in range(0, 8)] + [(0, 0, 1000, 1000 - 38), (0, 0, 1000, 1000 - 30)])
+
+
+def claim_deadline(S, D):
+    """C08.h: ChannelManager::handle_claimable_htlc - the claim deadline announced with PaymentClaimable. Whole function;
+    the claimable-payments map, the purpose comparison, check_incoming_mpp_part (which appends the new part and says
+    whether the payment is complete) and the event queue are stubs; the part list after that call is an arbitrary list
+    of <= 3 parts."""
+    import re
+    ids = ['C08.h.claim_deadline', 'C08.h.event_iff_complete', 'C08.h.nopanic', 'C08.h.witness', 'C08.h.validate']
+    if all(S._skip(o) for o in ids):
+        return
+    NP = 3
+    f = S.fn('handle_claimable_htlc')
+    E = S.engine(unwind=NP + 2)
+    E.slice_cap = NP
+    mem = {}
+    args = []
+    for n, t in f.params:
+        args.append(E.sym('a%d' % n, t, mem) if (t.startswith('&') or 'ClaimableHTLC' in t) else X.Opaque('arg%d' % n))
+    claiming, differs = z3.Bool('env.already_claiming'), z3.Bool('env.purpose_differs')
+    chk_d, chk_b = z3.Int('env.check.d'), z3.Bool('env.check.complete')
+    E.assume(z3.And(chk_d >= 0, chk_d <= 1))
+    cp = E.sym('payment', '&mut ln::channelmanager::ClaimablePayment', mem)
+    skim = E.sym('env.skimmed', 'u64')
+    events = []
+    for rx, h in [
+        (r'HashMap::<.*ClaimingPayment.*>::contains_key::<', lambda *a: X.B(claiming)),
+        (r'HashMap::<.*ClaimablePayment.*>::entry$', lambda *a: X.Opaque('entry')),
+        (r'Entry::<.*>::or_insert_with::<', lambda *a: cp),
+        (r'PaymentPurpose::is_keysend$', lambda *a: X.B(z3.Bool('env.keysend'))),
+        (r'PaymentPurpose as PartialEq>::ne$', lambda *a: X.B(differs)),
+        (r'check_incoming_mpp_part::<', lambda *a: X.En('Result', chk_d, {0: [X.B(chk_b)], 1: [X.UNIT]})),
+        (r'ClaimablePayment::total_counterparty_skimmed_msat$', lambda *a: skim),
+        (r'ClaimablePayment::(receiving_channel_ids|inbound_payment_id)$', lambda *a: X.Opaque('derived')),
+        (r'as Clone>::clone$', lambda *a: X.Opaque('clone')),
+        (r'VecDeque::<.*>::push_back$', lambda E_, m, func, argv, guard, mem_, dty, caller: (events.append((X.zbool(guard), argv[1])), X.UNIT)[1]),
+    ]:
+        E.models.insert(0, (re.compile(rx), h))
+    rv = S.call(E, f, args, mem)
+    ret = S.ret_guard
+    if len(events) != 1:
+        raise X.Unsupported('expected one event push, found %d; %s' % (len(events), [w for g_, w in E.unsupported][:3]))
+    g_ev, ev_pair = events[0]
+    ev = ev_pair.fs[0]
+    EV = [v for v in D.enum_variants('Event', hint='events/mod.rs') if v[0] == 'PaymentClaimable'][0][2]
+    VI = D.variant_index('Event', 'PaymentClaimable', hint='events/mod.rs')
+    dl = E.en_payload(ev, 'PaymentClaimable', VI, EV.index('claim_deadline'), 'Option<u32>', mem, 'spec')
+    amt = E.en_payload(ev, 'PaymentClaimable', VI, EV.index('amount_msat'), 'u64', mem, 'spec').t
+    CP = D.struct_fields('ClaimablePayment')
+    CH, MP = D.struct_fields('ClaimableHTLC'), D.struct_fields('MppPart')
+    htlcs = E.read_path(mem[cp.cell], (('f', CP.index('htlcs'), 'std::vec::Vec<ln::channelmanager::ClaimableHTLC>'),), mem, True, 'spec')
+    n = htlcs.n
+
+    def part(i, nm, ty):
+        mp = E.read_path(htlcs.elems[i], (('f', CH.index('mpp_part'), 'ln::channelmanager::MppPart'),), mem, True, 'spec')
+        return E.read_path(mp, (('f', MP.index(nm), ty),), mem, True, 'spec').t
+    cltv = [part(i, 'cltv_expiry', 'u32') for i in range(NP)]
+    val = [part(i, 'value', 'u64') for i in range(NP)]
+    siv = [part(i, 'sender_intended_value', 'u64') for i in range(NP)]
+    complete = z3.And(z3.Not(claiming), z3.Not(differs), chk_d == 0, chk_b)
+    mn = cltv[0]            # minimum over the present prefix of the list
+    for i in range(1, NP):
+        mn = z3.If(z3.And(n > i, cltv[i] < mn), cltv[i], mn)
+    total = sum([z3.If(n > i, val[i], 0) for i in range(NP)])
+    total_siv = sum([z3.If(n > i, siv[i], 0) for i in range(NP)])
+    # parts are real HTLCs: at least 1 msat each (update_add_htlc refuses 0) and far below the 21e6 BTC cap in total
+    pre = [z3.Implies(complete, n >= 1)] + [c >= HTLC_FAIL_BACK_BUFFER for c in cltv] + [z3.And(v >= 1, v <= 1 << 50) for v in val + siv] + \
+          [z3.If(total_siv > total, total_siv - total, 0) <= skim.t]
+    panic = z3.Or(*[X.zbool(p[0]) for p in E.panics]) if E.panics else False
+    flat = [n]
+    for i in range(NP):
+        flat += [cltv[i], val[i]]
+
+    def line_fn(v):
+        k = v[0]
+        return ' '.join(str(x) for x in [k] + list(v[1:1 + 2 * k]))
+    # the live probe feeds exactly the parts of the list and completes the payment with the last one
+    b = Binding('claim_deadline_probe', flat + [z3.If(complete, 1, 0)], [z3.If(g_ev, 1, 0), z3.If(g_ev, amt, 0), z3.If(g_ev, E.en_payload(dl, 'Some', 1, 0, 'u32', mem, 'spec').t, 0)],
+                line_fn=line_fn, which='oracle_tu', panic=panic, via_solver=True,
+                domain=[(1, NP)] + [(HTLC_FAIL_BACK_BUFFER, 1 << 20), (1, 1 << 30)] * NP + [(1, 1)])
+    S.prove(ids[0], E, pre + [complete], z3.And(g_ev, ret, X.zint(dl.d) == 1, E.en_payload(dl, 'Some', 1, 0, 'u32', mem, 'spec').t == mn - HTLC_FAIL_BACK_BUFFER, amt == total),
+            'when the last part completes a payment, PaymentClaimable announces claim_deadline = (the EARLIEST cltv_expiry over all its parts) - HTLC_FAIL_BACK_BUFFER and the sum of the parts\' values: claiming strictly below that height is safe for every part (C08.c: below it no part is failed back)',
+            [b], bounds='<= %d parts in any order, all u32 expiries >= 39, part values 1 .. 2^50 msat; map / purpose / MPP bookkeeping stubbed' % NP)
+    S.prove(ids[1], E, pre, g_ev == complete,
+            'a PaymentClaimable event is generated iff the payment is not already being claimed, the purposes agree and the MPP bookkeeping reports the payment complete', [b])
+    S.no_panic(ids[2], E, pre, 'no overflow / underflow (expiries of accepted parts exceed the fail-back buffer), the internal debug_asserts hold', [b])
+    S.witness(ids[3], E, pre + [complete, n == NP, cltv[1] < cltv[0]], g_ev)
+    S.validate(ids[4], E, b, n=40 if S.tier == 'quick' else 200)
